@@ -102,7 +102,16 @@ type probeSlot struct {
 const probeCalls = 2
 
 // probeDval: what a probe position holds (dval of schema.go calls this for positions of the probe interface)
+// nesting of probe instances while one value is printed (probe cases run one at a time, see probeMu): a tree that shares
+// config objects between instances can make an instance's config contain the instance itself
+var probeDepth int
+
 func probeDval(v reflect.Value, fac bool) (out string) {
+	probeDepth++
+	defer func() { probeDepth-- }()
+	if probeDepth > 6 {
+		return node("P", "cycle")
+	}
 	defer func() {
 		if r := recover(); r != nil {
 			out = node("F", enc("panic:"+fmt.Sprint(r)))
